@@ -66,7 +66,7 @@ def check_ma(ctx, n_cases):
 # ------------------------------------------------------------------ Results
 def gen_result(rng):
     from coba.results.core import Result
-    ne, nl, nv = rng.choice([1, 2, 3, 4]), rng.choice([1, 2, 3, 4]), rng.choice([1, 1, 2])
+    ne, nl, nv = rng.choice([1, 2, 3, 4, 4, 12, 13]), rng.choice([1, 2, 3, 4]), rng.choice([1, 1, 2])      # 12+: ids of one and two digits
     trip = {}
     one_val_per_learner = rng.random() < 0.3       # every learner is evaluated by exactly one evaluator (an evaluator can lose its only learner)
     if one_val_per_learner: nv = rng.choice([2, 2, 3])
